@@ -13,6 +13,7 @@ type convBuilder struct {
 	script Script
 	out    []byte
 	cuts   []int // positions where a raw read boundary is forced
+	faults map[int]RawKind // a failing raw read (timeout / error) scripted at this stream position
 }
 
 func (b *convBuilder) line(s string) { b.out = append(b.out, s...); b.out = append(b.out, '\r', '\n') }
@@ -370,7 +371,18 @@ func (b *convBuilder) bdat() {
 		if r.Intn(4) != 0 {
 			b.cut()
 		}
-		b.out = append(b.out, payload...)
+		if len(payload) > 2 && r.Intn(12) == 0 {
+			// the peer stalls (or the read fails once) inside the chunk
+			k := 1 + r.Intn(len(payload)-1)
+			b.out = append(b.out, payload[:k]...)
+			if b.faults == nil {
+				b.faults = map[int]RawKind{}
+			}
+			b.faults[len(b.out)] = []RawKind{RawTimeout, RawErr}[r.Intn(2)]
+			b.out = append(b.out, payload[k:]...)
+		} else {
+			b.out = append(b.out, payload...)
+		}
 		if r.Intn(3) == 0 {
 			b.cut()
 		}
@@ -448,8 +460,11 @@ func (b *convBuilder) segment() []Raw {
 		case 4: // lock-step like: per line, and also random
 			boundary = s[i-1] == '\n' || r.Intn(40) == 0
 		}
-		if boundary || cutset[i] || i == len(s) {
+		if boundary || cutset[i] || i == len(s) || b.faults[i] != 0 {
 			flush(i)
+		}
+		if k, ok := b.faults[i]; ok {
+			raws = append(raws, Raw{Kind: k})
 		}
 	}
 	switch r.Intn(8) {
